@@ -28,7 +28,10 @@ def common_contents():
     return [("empty", [], 0), ("one digit", B("1"), 1), ("one letter", B("A"), 1), ("4000 letters", B("A"), 4000),
             ("4000 digits", B("1234567890"), 4000), ("invalid utf-8", [0xff, 0xfe, 0x80], 3), ("truncated utf-8", [0x41, 0xc3], 2),
             ("japanese", B("あいう"), 9), ("cyrillic", B("Привет"), 12),
-            ("latin-1 text", B("café"), 5), ("nul", [0], 1), ("control characters", [1, 31, 127], 3), ("all bytes", list(range(256)), 256)]
+            ("latin-1 text", B("café"), 5),
+            # decimal digits / letters of other scripts: a Unicode-aware predicate takes them for the symbology's own alphabet
+            ("arabic-indic digits", B("١٢٣٤"), 8), ("fullwidth digits", B("１２３４"), 12), ("ascii + devanagari digits", B("12३४"), 8),
+            ("two arabic-indic digits", B("١٢"), 4), ("fullwidth letters", B("ＡＢＣ"), 9), ("superscript digits", B("²³"), 4), ("nul", [0], 1), ("control characters", [1, 31, 127], 3), ("all bytes", list(range(256)), 256)]
 
 
 def own_contents(wr):
@@ -226,6 +229,8 @@ def input_stream(ctx, cfgs):
                 pick = list(allc[wr]) + random_contents(wr, rng, 2)
             else:
                 pick = own[:3] + [rng.choice(allc[wr]) for _ in range(4)]
+        if wr == "QR" and any(h["k"] == "CHARACTER_SET" for h in cfg["hints"]):
+            pick = pick + [own[1], allc[wr][7]]        # the named character set is only used by byte mode: "hello, world", japanese
         for c in pick:
             yield mk(cfg, c)
     for x in c128_family(rng, 1500 if ctx.quick else 60000):
